@@ -25,5 +25,16 @@ esac
 case "${1:-}" in
   replay) shift; exec "$BIN" replay "$@" ;;
   "") echo "usage: run.sh <ID> [quick|thorough] | run.sh replay <file>" >&2; exit 2 ;;
-  *) ID="$1"; TIER="${2:-${VERIF_TIER:-quick}}"; exec "$BIN" check "$ID" "$TIER" ;;
+  *) ID="$1"; TIER="${2:-${VERIF_TIER:-quick}}"
+     if [ "$TIER" = thorough ]; then
+       # coverage-guided stage (libFuzzer) for the properties whose generators are pure functions of raw entropy
+       case "$ID" in
+         C01|C02|C03|C04|C05|C06|C07|C09|C10|C11|C12|C16|C17|C18)
+           "$ROOT/fuzz.sh" "$ID" "${VERIF_FUZZ_RUNS:-150000}" "${VERIF_FUZZ_JOBS:-8}"; frc=$?
+           if [ $frc -eq 1 ]; then exit 1; fi
+           if [ $frc -ne 0 ]; then echo "coverage-guided stage inconclusive (exit $frc); continuing with the proptest campaign" >&2; fi
+           export PV_FUZZ_SUMMARY="$ROOT/harness/target-scratch/fuzz/$ID/summary.json" ;;
+       esac
+     fi
+     exec "$BIN" check "$ID" "$TIER" ;;
 esac
